@@ -246,6 +246,17 @@ var ruleJSONNodes = &core.Rule{ID: "R10.3", Min: 5,
 		}
 		// among the text formats the record-oriented detectors come after JSON: a JSON document written over several lines
 		// with the same number of commas in each also satisfies the CSV detector (and one value per line the NDJSON one)
+		for _, nd := range m.Find("application/x-ndjson") {
+			ni := childIndex(t, nd)
+			for _, later := range []string{"text/csv", "text/tab-separated-values"} {
+				for _, n := range m.Find(later) {
+					if li := childIndex(t, n); li >= 0 && ni >= 0 {
+						s.Check(ni < li, "ndjson precedes "+later, c.Pos(n.Pos), fmt.Sprintf("positions %d < %d among the children of text/plain", ni, li),
+							fmt.Sprintf("%s is consulted before application/x-ndjson: NDJSON whose lines have equal numbers of commas (arrays, flat objects) is reported as %s", later, later))
+					}
+				}
+			}
+		}
 		ji := childIndex(t, js)
 		for _, later := range []string{"text/csv", "text/tab-separated-values", "application/x-ndjson"} {
 			for _, n := range m.Find(later) {
